@@ -6,5 +6,5 @@ git -C /repo worktree add -f --detach $WT HEAD >/dev/null 2>&1 || exit 2
 trap 'git -C /repo worktree remove --force $WT >/dev/null 2>&1' EXIT
 git -C $WT apply "$P" || { echo "patch does not apply"; exit 3; }
 for p in "$@"; do
-  /verif/bin/rarecheck -property $p -repo $WT -no-evidence 2>&1 | grep -E '^\[violation\]|^\[undecided\]|tier=|^note' | cut -c1-${COLS:-420}
+  ${RC:-/verif/bin/rarecheck} -property $p -repo $WT -no-evidence 2>&1 | grep -E '^\[violation\]|^\[undecided\]|tier=|^note' | cut -c1-${COLS:-420}
 done
